@@ -11,6 +11,11 @@ from vlib import core
 probs = core.coq_audit()
 if probs:
     print("audit problems:", probs); sys.exit(1)
+try:                      # generated Coq files (C13 dispatch ladders) are regenerated from /repo's headers before the build
+    from vlib import c13
+    c13.regenerate()
+except Exception as e:    # the C13 check reports a translator problem itself
+    print("note: could not regenerate the C13 dispatch model:", e)
 ok, log = core.coq_make()
 print(log[-1500:])
 if not ok:
